@@ -63,6 +63,8 @@ def case_strategy(draw, tier):
                                           "closest_match", "random_draw", None])),
         "wave1": wave1, "wave2": wave2,
         "choices": draw(st.lists(st.integers(0, 11), max_size=300)),
+        "sticky": draw(st.booleans()),
+        "choices_seed": draw(st.sampled_from([None, draw(st.integers(0, 2 ** 32))])),
         "choices2": draw(st.lists(st.integers(0, 3), max_size=60)),
         "resolve": draw(st.lists(st.sampled_from(["accept", "accept", "release", "fail"]), min_size=12, max_size=12)),
         "resolve_order": draw(st.permutations(list(range(12)))),
@@ -87,9 +89,9 @@ def outpoints(tx):
     return {(txi.txo_ref.tx_ref.id, txi.txo_ref.position) for txi in tx.inputs}
 
 
-async def wave(env, specs, choices, out, label):
+async def wave(env, specs, choices, out, label, sticky=False):
     from lbry.error import InsufficientFundsError
-    gate = Gate(choices)
+    gate = Gate(choices, sticky=sticky)
     dbo = env.ledger.db.db
     orig = dbo.run
     dbo.run = gate.wrap(orig)
@@ -151,7 +153,11 @@ async def run_async(case, out):
     out.check(initial == set(all_points), "harness:utxos-not-installed", "%d vs %d" % (len(initial), len(all_points)))
 
     # ---- wave 1: concurrent builds
-    results, gate = await wave(env, case["wave1"], case["choices"], out, "w1")
+    choices = case["choices"]
+    if case.get("choices_seed") is not None:
+        prng = _random.Random(case["choices_seed"])      # unbiased schedule picks, still a pure function of the case
+        choices = [prng.randrange(12) for _ in range(400)]
+    results, gate = await wave(env, case["wave1"], choices, out, "w1", sticky=bool(case.get("sticky")))
     built = [(i, tx) for i, tx in enumerate(results) if tx is not None]
     out.label("w1_built:%d" % min(len(built), 6))
     held = {}
